@@ -988,6 +988,28 @@ fn parse_pep508_requirement<T: Pep508Url>(
         None
     };
 
+    // A URL that ends in `;` or `#` cannot be followed by a marker: written back as
+    // `name @ url ; marker`, the end of the URL would be ambiguous. (The URL text itself cannot
+    // end that way here, but the parsed URL can: `https://host/x;${EMPTY} ; marker`, or a control
+    // character that URL parsing trims.)
+    if marker.is_some() {
+        if let Some(VersionOrUrl::Url(url)) = &requirement_kind {
+            let url = url.to_string();
+            for c in [';', '#'] {
+                if url.ends_with(c) {
+                    return Err(Pep508Error {
+                        message: Pep508ErrorSource::String(format!(
+                            "Missing space before '{c}', the end of the URL is ambiguous"
+                        )),
+                        start: url_end.unwrap_or(cursor.pos()).saturating_sub(c.len_utf8()),
+                        len: c.len_utf8(),
+                        input: cursor.to_string(),
+                    });
+                }
+            }
+        }
+    }
+
     // wsp*
     cursor.eat_whitespace();
     if let Some((pos, char)) = cursor.next() {
